@@ -351,15 +351,19 @@ def main(prop_id, argv=None):
         write_evidence(prop_id, mod, seed, args.tier, agg, t0, None, pre, violations=0, harness_error=True)
         return 2
     st = None
-    if not args.no_selftest and not viols:
+    if viols:
+        # recorded (open) findings print KNOWN-FINDING and do not end the check: the determinism self-test and the
+        # reach guards below still apply to everything else the run explored
+        rc = report_violations(prop_id, mod, seed, args, viols, t0, agg, pre, st)
+        if rc != 0:
+            return rc
+    if not args.no_selftest:
         main_d = {str(job["seed"]): R.digest([pay["digests"], pay["spec_digest"]])
                   for job, s, pay in results if s == "ok"}
         ok, st = selftest(prop_id, seed, TIERS[args.tier]["selftest"], runs, main_d)
         if not ok:
             print(f"HARNESS-ERROR property={prop_id}: NONDETERMINISM {json.dumps(st)[:1500]}")
             return 2
-    if viols:
-        return report_violations(prop_id, mod, seed, args, viols, t0, agg, pre, st)
     # vacuity / reach guards
     judged_worlds = agg["worlds_judged"]
     if judged_worlds < 0.9 * (nworlds - agg["worlds_skipped"]) or judged_worlds == 0:
